@@ -227,4 +227,6 @@ def run(repo, tier):
         res.add(Finding('SPEC', ic.fullname, 'fit_results snapshots', ic.loc,
                         'IterativePSFPhotometry.__call__ must append deepcopy(self._psfphot) after every iteration: make_model_image '
                         'renders the sources of every stored iteration', {}))
+    from .common import run_generic_pack
+    run_generic_pack(repo, res, PROP, MODS)
     return res
